@@ -211,6 +211,8 @@ class HasStates:
                 sm.status = sm.status[0], 'restarting'
         else:
             sm.status = status
+        # the final status of an earlier run (stopped, error or final_status) must not be inherited
+        kwds.setdefault('idle_status', (IDLE, ''))
         sm.start(statefunc, cleanup=kwds.pop('cleanup', self.on_cleanup), **kwds)
         self.read_status()
         if fast_poll:
